@@ -4,6 +4,7 @@
 #include "vpbt.h"
 #include <cfloat>
 #include <cmath>
+#include <igris/binreader.h>
 #include <igris/util/numconvert.h>
 #include <string>
 
@@ -303,6 +304,19 @@ static void check_parse(Case &c, PEntry pe, const std::string &lit, Exact &blk, 
         got = igris_atof32(blk.c(), &end);
         ref = reff;
         tol = 4 * ulp_float(reff);
+        {
+            // the same text through the stream reader of binreader.h: same value, and the reader stands where the literal ends
+            igris::binreader br(blk.c());
+            float f = -12345.0f;
+            br.read_ascii_decimal_float(&f);
+            char nx = 0x55;
+            br.read_binary(nx);
+            float g32 = (float)got;
+            VP_CHECK(memcmp(&f, &g32, sizeof f) == 0, "binreader_float_value", "binreader::read_ascii_decimal_float(\"%s\") = %.9g, igris_atof32 gives %.9g", lit.c_str(),
+                     (double)f, got);
+            VP_CHECK(end && nx == *end, "binreader_float_position", "after read_ascii_decimal_float(\"%s\") the next byte read is 0x%02x, the literal is followed by 0x%02x",
+                     lit.c_str(), (unsigned char)nx, end ? (unsigned char)*end : 0);
+        }
         break;
     }
     case P_ATOF64:
